@@ -148,11 +148,30 @@ def gen_faulty(rng):
     return root_text, inc_text, kind, ffile, fline
 
 
-def walk_msgs(msgs):
+def walk_msgs(msgs, under_subst=False):
     for m in msgs:
+        m["_under_subst"] = under_subst
         yield m
-        for x in walk_msgs(m.get("inner", [])):
+        for x in walk_msgs(m.get("inner", []), under_subst or m.get("descr", "").startswith("match attempted:")):
             yield x
+
+
+def gen_macro_fault(rng):
+    """an out-of-range argument reaches a typed parameter through the `{x}` of an asm block: the inner messages are located
+    in the substituted text (finding F48 when that text is longer than what it replaces)"""
+    filler = rng.choice(["", "; é\n", "#d8 1 ; ✓\n", "x = 5\n"])
+    expr = " + ".join(["0x100"] * rng.randrange(1, 7))
+    rules = "#ruledef\n{\n    ld {x: u8} => 0xaa @ x\n    ld2 {x} => asm { ld {x} }%s\n}\n" % rng.choice(["", " ; é", " ; 𝄞"])
+    call = "ld2 %s%s\n" % (expr, rng.choice(["", " ; ü"]))
+    if rng.random() < 0.5:
+        root = filler + call + rules
+        fline = filler.count("\n")
+    else:
+        root = rules + filler + call
+        fline = (rules + filler).count("\n")
+    if rng.random() < 0.3:
+        root = root.rstrip("\n")
+    return root, "", "macro_range", "main.asm", fline
 
 
 def run(chk):
@@ -210,6 +229,15 @@ def run(chk):
         if k["status"] != "open":
             continue
         a = fw.run_oracle([fw.asm_op([("main.asm", k["replay"]["program"])])], "c13kf")[0]
+        if k.get("signature", {}).get("classifier") == "span_in_substituted_text":
+            data = k["replay"]["program"].encode()
+            bad = [m for m in walk_msgs(a.get("messages", [])) if m.get("span") and m.get("_under_subst") and
+                   not (m["span"]["start"] <= m["span"]["end"] <= len(data) and is_boundary(data, m["span"]["start"]) and is_boundary(data, m["span"]["end"]))]
+            if bad:
+                chk.known(k["id"], k["observed"])
+            else:
+                chk.notes.append("known finding %s no longer reproduces" % k["id"])
+            continue
         errs = [m for m in a.get("messages", []) if m["kind"] == "error"]
         line = None
         if errs and errs[0].get("span"):
@@ -220,7 +248,8 @@ def run(chk):
             chk.notes.append("known finding %s no longer reproduces (first error on line %s)" % (k["id"], line))
 
     # ---------------- single-fault programs
-    progs = [gen_faulty(rng) for _ in range(20000 if thorough else 2500)]
+    progs = [gen_faulty(rng) for _ in range(20000 if thorough else 2500)] + [gen_macro_fault(rng) for _ in range(600 if thorough else 80)]
+    known = {k["id"]: k for k in fw.known_findings("C13") if k["status"] == "open"}
     aops = [fw.asm_op([("main.asm", r), ("inc.asm", i)]) for r, i, _, _, _ in progs]
     impl = fw.run_oracle_resilient(aops, "c13p")
     for (root, inc, kind, ffile, fline), a in zip(progs, impl):
@@ -262,11 +291,17 @@ def run(chk):
                 chk.violate("location names a non-existing file", inp, "existing file", sp)
                 continue
             if not (sp["start"] <= sp["end"] <= len(data)) or not is_boundary(data, sp["start"]) or not is_boundary(data, sp["end"]):
+                if m.get("_under_subst") and "F48" in known:
+                    # located in the substituted text of an asm block, laid over the rule's source
+                    chk.known("F48", known["F48"]["observed"])
+                    chk.count("subst_span_F48")
+                    expected = None
+                    break
                 chk.violate("location is not a byte range on character boundaries inside the file", inp, "valid range", sp)
                 continue
             l, c = spec_linecol(data, sp["start"])
             expected.append((sp["file"], str(l + 1), str(c + 1)))
-        if printed != expected:
+        if expected is not None and printed != expected:
             chk.violate("printed line:column differs from the definition", inp, expected, printed)
     chk.sample({"files": {"main.asm": progs[0][0], "inc.asm": progs[0][1]}, "fault": progs[0][2], "expected": "%s:%d" % (progs[0][3], progs[0][4] + 1),
                 "first": (impl[0].get("messages") or [{}])[0].get("descr")})
